@@ -27,6 +27,9 @@ func NewSimOver(t *chaingen.Tree, inner *chain.DBStore, st chain.Store, ts conse
 // Call performs op like Do but observes only error, panic and notification
 // (no per-block store scan).
 func (s *Sim) Call(op Op) (o Obs) {
+	if s.ext.on || op.Kind == "reopen" || op.Kind == "addv-bad" {
+		return s.doExt(op, false)
+	}
 	before := s.notified
 	func() {
 		defer func() {
